@@ -223,6 +223,11 @@ class Run:
                 return (0, "", "the process with debug logging did not terminate")
             for i, (x, y) in enumerate(zip(a + [None] * (len(b) - len(a)), b + [None] * (len(a) - len(b)))):
                 if x != y:
+                    # whole-second ages are wall-clock readings: the process that writes a trace log is slower, and a long
+                    # segment can put a second between a frame and the dump in one process and not in the other
+                    if x is not None and y is not None and x.split(" ", 1)[0] == y.split(" ", 1)[0] \
+                            and not lines_agree(x, y, ignore=("age", "posage", "trkage", "hdgage", "cprage", "b50age")):
+                        continue
                     return (i, x, y)
             return None
         d = diff(finish(twin), impl_lines)
